@@ -13,8 +13,10 @@ import (
 	"strconv"
 	"strings"
 
+	"github.com/internetarchive/Zeno/internal/pkg/config"
 	"github.com/internetarchive/Zeno/internal/pkg/preprocessor"
 	"github.com/internetarchive/Zeno/pkg/models"
+	"github.com/spf13/viper"
 )
 
 var c08Status = []string{"Fresh", "PreProcessed", "Archived", "Failed", "Completed", "Seen", "GotRedirected", "GotChildren"}
@@ -480,4 +482,140 @@ func shrinkSpec(n *specNode) []*specNode {
 		out = append(out, c)
 	}
 	return out
+}
+
+// ---- operator flags ----
+
+// c08Flags: the operator flags a case may set (real flag names of `Zeno get`).  Only the first one
+// has anything to do with the seencheck.
+var c08Flags = []string{"disable-seencheck", "disable-local-dedupe", "disable-assets-capture", "warc-on-disk", "capture-alternate-pages", "disable-rate-limit"}
+
+// applyOperatorFlags brings the flags into the configuration the way the program does it: viper
+// keys, unmarshalled into the Config struct through its mapstructure tags, then the real
+// GenerateCrawlConfig.  off = the OPERATOR asked for no seencheck; ok = well-formed flag list.
+func applyOperatorFlags(cfg string, useHQ bool, job string) (off bool, ok bool) {
+	set := map[string]bool{}
+	if cfg != "" && cfg != "-" {
+		for _, f := range strings.Split(cfg, ",") {
+			known := false
+			for _, k := range c08Flags {
+				if k == f {
+					known = true
+				}
+			}
+			if !known {
+				return false, false
+			}
+			set[f] = true
+		}
+	}
+	for _, k := range c08Flags {
+		viper.Set(k, set[k])
+	}
+	c := config.Get()
+	if err := viper.Unmarshal(c); err != nil {
+		panic(err)
+	}
+	c.Job = job
+	c.NoStdoutLogging, c.NoStderrLogging, c.NoFileLogging = true, true, true
+	c.UserAgent = "zv"
+	c.UseHQ = useHQ
+	if err := config.GenerateCrawlConfig(); err != nil {
+		panic(err)
+	}
+	return set["disable-seencheck"], true
+}
+
+func genOperatorFlags(r *Rng) string {
+	var fs []string
+	if r.Chance(8) {
+		fs = append(fs, c08Flags[0])
+	}
+	if r.Chance(35) {
+		fs = append(fs, c08Flags[1])
+	}
+	for _, f := range c08Flags[2:] {
+		if r.Chance(12) {
+			fs = append(fs, f)
+		}
+	}
+	if len(fs) == 0 {
+		return "-"
+	}
+	return strings.Join(fs, ",")
+}
+
+// ---- one seed's life, pass after pass ----
+
+// evolveSpec: what archiving and post-processing make of the tree a preprocess pass has handled
+// (generator-side approximation): every node at the working depth is completed, failed, seen,
+// gets assets or is redirected; then a Got* node whose children are all done is completed (as
+// markCompleted does).  New children take the URL of a node completed earlier with probability
+// dupPct, so that later passes meet URLs already fetched by the same tree - also below Completed
+// inner nodes.  Returns false when nothing is left to do.
+func evolveSpec(r *Rng, root *specNode, npool int, dupPct int) bool {
+	d := root.depth()
+	var done []int // URLs of non-seed nodes completed so far
+	root.walk(0, func(n *specNode, nd int) {
+		if nd > 0 && (n.st == 4 || n.st == 7 || n.st == 6) {
+			done = append(done, n.url)
+		}
+	})
+	pick := func() int {
+		if len(done) > 0 && r.Chance(dupPct) {
+			return done[r.Intn(len(done))]
+		}
+		return r.Intn(npool)
+	}
+	grew := false
+	var work []*specNode
+	root.walk(0, func(n *specNode, nd int) {
+		if nd == d {
+			work = append(work, n)
+		}
+	})
+	keep := r.Intn(len(work)) // at least one node goes on
+	for i, n := range work {
+		k := r.Intn(10)
+		if i == keep && d < 5 {
+			k = 6 + r.Intn(4)
+		}
+		if d >= 5 {
+			k = r.Intn(6)
+		}
+		switch {
+		case k < 3:
+			n.st = 4
+		case k < 4:
+			n.st = 3
+		case k < 6:
+			n.st = 5
+		case k < 8:
+			n.st = 7
+			for c := 1 + r.Intn(3); c > 0; c-- {
+				n.kids = append(n.kids, &specNode{url: pick(), st: 0})
+			}
+			grew = true
+		default:
+			n.st = 6
+			n.kids = []*specNode{{url: pick(), st: 0}}
+			grew = true
+		}
+	}
+	// markCompleted
+	var mark func(n *specNode)
+	mark = func(n *specNode) {
+		all := true
+		for _, k := range n.kids {
+			mark(k)
+			if k.st != 4 && k.st != 5 && k.st != 3 {
+				all = false
+			}
+		}
+		if len(n.kids) > 0 && all && (n.st == 7 || n.st == 6) {
+			n.st = 4
+		}
+	}
+	mark(root)
+	return grew
 }
